@@ -187,9 +187,9 @@ func (e *Engine) checkDirect(r *relationTuple, restDepth int) checkgroup.CheckFu
 				WithField("method", "checkDirect").
 				WithError(err).
 				Error("failed to look up direct access in db")
-			resultCh <- checkgroup.Result{
-				Membership: checkgroup.NotMember,
-			}
+			// Report the error instead of "not a member": below an exclusion
+			// (!) a swallowed error would turn into "is a member".
+			resultCh <- checkgroup.Result{Err: errors.WithStack(err)}
 
 		case found:
 			resultCh <- checkgroup.Result{
